@@ -15,6 +15,8 @@ from fractions import Fraction
 from harness.core import import_cuqi, quiet, q, qv, qm, pv, pm, close, vclose
 
 TOL = 1e-9
+LM_SCALES = [1.0, 1.0, 2.0 ** -17, 2.0 ** -10, 2.0 ** -7, 2.0 ** -3, 2.0 ** 3, 2.0 ** 10]     # residual scale c = sqrt(lambda): |g0| ~ c^2 spans 1e-10 … 1e6
+SCALES = [1.0, 1.0, 1.0, 2.0 ** -27, 2.0 ** -13, 2.0 ** -7, 2.0 ** 7, 2.0 ** 13, 2.0 ** 27]
 if hasattr(sys, "set_int_max_str_digits"):
     sys.set_int_max_str_digits(0)      # exact LM iterates have long numerators
 
@@ -194,6 +196,7 @@ def compare_cg(ctx, key, desc, out, solve_impl, on_refusal=None, kappa=1.0):
     Float CG loses conjugacy with the conditioning kappa of the (preconditioned) operator: the iterate tolerance
     is max(1e-9, 1e-13*kappa^4) (1e-9 up to kappa = 10; the generators keep kappa <= 20)."""
     tol = desc["tol"]
+    ds = desc.get("dscale", 1.0)          # data scale: iterates are compared after division by it (relative comparison)
     itol = max(TOL, 1e-13 * kappa ** 4)
     if out.startswith("err") or out == "bad-op":
         try:
@@ -233,7 +236,7 @@ def compare_cg(ctx, key, desc, out, solve_impl, on_refusal=None, kappa=1.0):
         with quiet():
             xj, _ = solve_impl(j)
         # at the step where exact arithmetic terminates (gamma = 0) float CG has not converged to working precision yet
-        if not vclose(xj, trace[j], 1e-6 if (j == k and gammas[k] == 0) else itol):
+        if not vclose(np.asarray(xj) / ds, np.asarray(trace[j]) / ds, 1e-6 if (j == k and gammas[k] == 0) else itol):
             ctx.disagree(key + ":iterate", {**desc, "j": j}, trace[j], np.asarray(xj).tolist(), f"iterate {j} differs")
             break
     return True, np.asarray(xi, dtype=float), ki, (k, flag, x, gammas)
@@ -248,6 +251,8 @@ def check_cgls(ctx, rs, sc, CGLS):
         A = gen_matrix(rs, m, n, sparse)
         b = rs.randint(-5, 6, size=m).astype(float)
         x0 = start_vector(rs, n)
+        dscale = float(rs.choice(SCALES))     # data scale sweep 1e-8 … 1e8 (dyadic): the stop is RELATIVE to |s0|
+        b = b * dscale; x0 = x0 * dscale
         shift = float(rs.choice([0.0, 0.0, 0.25, 0.5, 1.0, 2.0]))
         mode = ["converge", "converge", "truncate", "loosetol"][i % 4]
         if mode == "converge":
@@ -256,7 +261,7 @@ def check_cgls(ctx, rs, sc, CGLS):
             tol, maxit = 1e-10, int(rs.randint(0, n + 1))
         else:
             tol, maxit = float(rs.choice([0.5, 0.1, 1e-2, 1e-3])), 60
-        meta.append((A, b, x0, shift, tol, maxit, sparse, mode))
+        meta.append((A, b, x0, shift, tol, maxit, sparse, mode, dscale))
         lines.append(f"cgls mat {qm(A)} {qv(b)} {qv(x0)} {q(shift)} {q(tol)} {maxit}")
         lines.append(f"cgls fun {qm(A)} {qm(A.T)} {qv(b)} {qv(x0)} {q(shift)} {q(tol)} {maxit}")
     # special inputs: start at the exact solution (gamma0 = 0), zero data, negative shift (indefinite), tol = 0, tol < 0
@@ -273,16 +278,16 @@ def check_cgls(ctx, rs, sc, CGLS):
     specials.append((A3, np.array([1.0, 2.0, 3.0]) * 1024, np.zeros(2), 0.25, 1e-3, 10, False, "large-scale"))
     for sp_ in specials:
         A, b, x0, shift, tol, maxit = sp_[:6]
-        meta.append(sp_)
+        meta.append(sp_ + (1.0,))
         lines.append(f"cgls mat {qm(A)} {qv(b)} {qv(x0)} {q(shift)} {q(tol)} {maxit}")
         lines.append(f"cgls fun {qm(A)} {qm(A.T)} {qv(b)} {qv(x0)} {q(shift)} {q(tol)} {maxit}")
     outs = ctx.lean.drive(lines)
     hist = {}
-    for idx, (A, b, x0, shift, tol, maxit, sparse, mode) in enumerate(meta):
+    for idx, (A, b, x0, shift, tol, maxit, sparse, mode, dscale) in enumerate(meta):
         m, n = A.shape
         out_mat, out_fun = outs[2 * idx], outs[2 * idx + 1]
         desc = {"solver": "CGLS", "A": A.tolist(), "b": b.tolist(), "x0": x0.tolist(), "shift": shift, "tol": tol,
-                "maxit": maxit, "sparse": sparse, "mode": mode}
+                "maxit": maxit, "sparse": sparse, "mode": mode, "dscale": dscale}
         cls = f"{shape_class(m, n)}:{'shift' if shift != 0 else 'noshift'}"
         hist[cls] = hist.get(cls, 0) + 1
         Aop = sp.csr_matrix(A) if sparse else A
@@ -330,7 +335,7 @@ def check_cgls(ctx, rs, sc, CGLS):
             for j, rj in enumerate(rr):
                 with quiet():
                     xj, _ = CGLS(A, b.copy(), x0.copy(), j, tol, shift).solve()
-                if not vclose(rj, b - A @ xj, 1e-9):
+                if not vclose(rj / dscale, (b - A @ xj) / dscale, 1e-9):
                     ctx.fail(f"CGLS:mat:{cls}:residual-recurrence", {**desc, "j": j}, (b - A @ xj).tolist(), rj.tolist(),
                              "the recurred residual is not b - A x")
                     break
@@ -349,20 +354,22 @@ def oracle_cgls(ctx, key, desc, A, b, x0, shift, tol, maxit, xi, ki, mode):
         return
     if shift < 0 or tol < 0:
         return
+    ds = desc.get("dscale", 1.0)
     stopped_by_x = np.linalg.norm(xi) * tol >= 1 - 1e-12
     if ki < maxit and not stopped_by_x:
-        # terminated by the first clause: normal-equation residual within tol of the initial one
-        if ns > tol * ns0 * (1 + 1e-6) + 1e-12 * (1 + ns0):
+        # terminated by the first clause: normal-equation residual within tol of the initial one (RELATIVE: no absolute slack
+        # beyond the rounding floor of the data scale)
+        if ns > tol * ns0 * (1 + 1e-6) + 1e-12 * (ds + ns0):
             ctx.fail(key + ":normal-equations", desc, f"|A^T(b-Ax)-shift x| <= tol*|s0| = {tol * ns0}", float(ns),
                      "returned point does not satisfy the (shifted) normal equations to the stated tolerance")
-    if mode == "converge":
+    if mode == "converge" and not stopped_by_x:
         # run to convergence: the solution of the (shifted) normal equations (least-squares solution closest in the Krylov sense)
-        if ns > 1e-7 * (1 + ns0 + np.linalg.norm(A.T @ b)):
+        if ns > 1e-7 * (ds + ns0 + np.linalg.norm(A.T @ b)):
             ctx.fail(key + ":normal-equations", desc, "residual of (A^T A + shift I) x = A^T b ~ 0", float(ns),
                      "run to convergence, the returned point does not solve the (shifted) normal equations")
         if np.linalg.matrix_rank(H) == n:
             xs = np.linalg.solve(H, A.T @ b)
-            if not vclose(xi, xs, 1e-6):
+            if not vclose(xi / ds, xs / ds, 1e-6):
                 ctx.fail(key + ":solution", desc, xs.tolist(), xi.tolist(), "not the solution of the (shifted) normal equations")
 
 
@@ -376,8 +383,10 @@ def converged_oracle(ctx, key, desc, A, b, x0, shift, solve2):
         return
     x = np.asarray(x, dtype=float)
     s = A.T @ (b - A @ x) - shift * x
-    scale = 1 + np.linalg.norm(A.T @ (b - A @ x0) - shift * x0) + np.linalg.norm(A.T @ b)
-    if shift >= 0 and (not np.all(np.isfinite(x)) or np.linalg.norm(s) > 1e-7 * scale):
+    ds = desc.get("dscale", 1.0)
+    scale = ds + np.linalg.norm(A.T @ (b - A @ x0) - shift * x0) + np.linalg.norm(A.T @ b)
+    by_x = np.all(np.isfinite(x)) and np.linalg.norm(x) * 1e-10 >= 1 - 1e-12
+    if shift >= 0 and not by_x and (not np.all(np.isfinite(x)) or np.linalg.norm(s) > 1e-7 * scale):
         ctx.fail(key, desc, "residual of (A^T A + shift I) x = A^T b ~ 0 when run to convergence", float(np.linalg.norm(s)),
                  "run to convergence, the returned point does not solve the (shifted) normal equations")
         return
@@ -388,7 +397,7 @@ def converged_oracle(ctx, key, desc, A, b, x0, shift, solve2):
             x, k = solve2(maxit, tol)
         x = np.asarray(x, dtype=float)
         ns = np.linalg.norm(A.T @ (b - A @ x) - shift * x); ns0 = np.linalg.norm(A.T @ (b - A @ x0) - shift * x0)
-        if k < maxit and np.linalg.norm(x) * tol < 1 - 1e-12 and ns > tol * ns0 * (1 + 1e-6) + 1e-12 * (1 + ns0):
+        if k < maxit and np.linalg.norm(x) * tol < 1 - 1e-12 and ns > tol * ns0 * (1 + 1e-6) + 1e-12 * (ds + ns0):
             ctx.fail(key, desc, f"|A^T(b-Ax)-shift x| <= tol*|s0| = {tol * ns0}", float(ns),
                      "stopped by the convergence flag, but the (shifted) normal equations do not hold to the stated relative tolerance")
 
@@ -403,6 +412,8 @@ def check_pcgls(ctx, rs, sc, PCGLS, cuqi):
         A = gen_matrix(rs, m, n, sparse)
         b = rs.randint(-5, 6, size=m).astype(float)
         x0 = start_vector(rs, n)
+        dscale = float(rs.choice(SCALES))
+        b = b * dscale; x0 = x0 * dscale
         for _try in range(30):                    # keep the preconditioned operator well-conditioned too
             P = gen_precond(rs, n, ["diag", "tri", "full"][i % 3])
             if eff_cond(A @ np.linalg.inv(P)) <= 20:
@@ -413,15 +424,15 @@ def check_pcgls(ctx, rs, sc, PCGLS, cuqi):
         mode = ["converge", "converge", "truncate"][i % 3]
         tol, maxit = (float(rs.choice([1e-8, 1e-10])), 60) if mode == "converge" else (1e-10, int(rs.randint(0, n + 1)))
         spsolve_path = (i % 4 == 3)
-        meta.append((A, P, b, x0, shift, tol, maxit, sparse, mode, spsolve_path))
+        meta.append((A, P, b, x0, shift, tol, maxit, sparse, mode, spsolve_path, dscale))
         how = "solve" if spsolve_path else "inv"
         lines.append(f"pcgls mat {qm(A)} {how} {qm(P)} {qv(b)} {qv(x0)} {q(shift)} {q(tol)} {maxit}")
         lines.append(f"pcgls fun {qm(A)} {qm(A.T)} {how} {qm(P)} {qv(b)} {qv(x0)} {q(shift)} {q(tol)} {maxit}")
     outs = ctx.lean.drive(lines)
-    for idx, (A, P, b, x0, shift, tol, maxit, sparse, mode, spsolve_path) in enumerate(meta):
+    for idx, (A, P, b, x0, shift, tol, maxit, sparse, mode, spsolve_path, dscale) in enumerate(meta):
         m, n = A.shape
         desc = {"solver": "PCGLS", "A": A.tolist(), "P": P.tolist(), "b": b.tolist(), "x0": x0.tolist(), "shift": shift,
-                "tol": tol, "maxit": maxit, "sparse": sparse, "mode": mode, "spsolve": spsolve_path}
+                "tol": tol, "maxit": maxit, "sparse": sparse, "mode": mode, "spsolve": spsolve_path, "dscale": dscale}
         cls = f"{shape_class(m, n)}:{'shift' if shift != 0 else 'noshift'}"
         Aop = sp.csr_matrix(A) if sparse else A
         Psp = sp.csc_matrix(P)
@@ -452,8 +463,17 @@ def check_pcgls(ctx, rs, sc, PCGLS, cuqi):
                 # ---- oracle
                 s = A.T @ (b - A @ xi) - shift * xi
                 s0 = A.T @ (b - A @ x0) - shift * x0
-                if mode == "converge" and np.all(np.isfinite(xi)):
-                    scale = 1 + np.linalg.norm(s0) + np.linalg.norm(A.T @ b)
+                by_x = np.all(np.isfinite(xi)) and np.linalg.norm(xi) * tol >= 1 - 1e-12
+                if np.all(np.isfinite(xi)) and ki < maxit and not by_x:
+                    # stopped by the first clause: RELATIVE accuracy of the preconditioned gradient P^-T A^T (b - A x)
+                    # (what PCGLS tests whatever `shift` is: lm/pcgls_stop_sound_partial)
+                    PiT = np.linalg.inv(P).T
+                    g1, g0_ = np.linalg.norm(PiT @ (A.T @ (b - A @ xi))), np.linalg.norm(PiT @ (A.T @ (b - A @ x0)))
+                    if g1 > tol * g0_ * (1 + 1e-6) + 1e-12 * (dscale + g0_):
+                        ctx.fail(key + ":relative-stop", desc, f"|P^-T A^T(b-Ax)| <= tol*|s0| = {tol * g0_}", float(g1),
+                                 "stopped by the convergence flag, but the preconditioned normal equations do not hold to the stated relative tolerance")
+                if mode == "converge" and np.all(np.isfinite(xi)) and not by_x:
+                    scale = dscale + np.linalg.norm(s0) + np.linalg.norm(A.T @ b)
                     if np.linalg.norm(s) > 1e-7 * scale:
                         ctx.fail(key + ":normal-equations", desc, "residual of (A^T A + shift I) x = A^T b ~ 0", float(np.linalg.norm(s)),
                                  "run to convergence, the returned point does not solve the (shifted) normal equations")
@@ -470,18 +490,26 @@ def check_pcgls(ctx, rs, sc, PCGLS, cuqi):
 
 
 # ----------------------------------------------------------------------------- FISTA / ISTA
-def prox_token(rs, n, ProjectNonnegative, ProjectBox, ProximalL1, i):
+def prox_token(rs, n, ProjectNonnegative, ProjectBox, ProximalL1, i, scale=1.0):
+    """regulariser scaled with the data (lambda*scale, bounds*scale) so that the solution scales by `scale`"""
     kind = ["l1", "l1", "nonneg", "box"][i % 4]
     if kind == "l1":
-        lam = float(rs.choice([0.0, 0.125, 0.5, 1.0, 2.0, 8.0]))
+        lam = float(rs.choice([0.0, 0.125, 0.5, 1.0, 2.0, 8.0])) * scale
         return kind, f"l1:{q(lam)}", (lambda x, g: ProximalL1(x, lam * g)), {"lam": lam}
     if kind == "nonneg":
         return kind, "nonneg", (lambda x, g: ProjectNonnegative(x)), {}
-    if rs.rand() < 0.3:
+    if scale == 1.0 and rs.rand() < 0.3:
         return kind, "box:none:none", (lambda x, g: ProjectBox(x)), {"lower": None, "upper": None}
-    lo = rs.randint(-4, 2, size=n) / 2.0
-    up = lo + rs.randint(0, 7, size=n) / 2.0
+    lo = rs.randint(-4, 2, size=n) / 2.0 * scale
+    up = lo + rs.randint(0, 7, size=n) / 2.0 * scale
     return kind, f"box:{qv(lo)}:{qv(up)}", (lambda x, g: ProjectBox(x, lo, up)), {"lower": lo.tolist(), "upper": up.tolist()}
+
+
+def unscale_par(par, scale):
+    out = {}
+    for k, v in par.items():
+        out[k] = None if v is None else (v / scale if np.isscalar(v) else (np.asarray(v) / scale).tolist())
+    return out
 
 
 def ref_prox(kind, par, v, t):
@@ -505,22 +533,24 @@ def check_fista(ctx, rs, sc, FISTA, ProjectNonnegative, ProjectBox, ProximalL1):
         A = gen_matrix(rs, m, n, sparse)
         b = rs.randint(-5, 6, size=m).astype(float)
         x0 = start_vector(rs, n)
+        fs = float(rs.choice([1.0, 1.0, 1.0, 2.0 ** -20, 2.0 ** -10, 2.0 ** 10, 2.0 ** 20]))        # data scale sweep (abstol is absolute by definition: it is swept with the scale and without)
+        b = b * fs; x0 = x0 * fs
         L = np.linalg.norm(A, 2) ** 2
         # dyadic step below 1/L (several sizes)
         e = math.floor(math.log2(1.0 / L)) - int(rs.randint(0, 3))
         t = 2.0 ** e if rs.rand() < 0.8 else 2.0 ** e * 1.25 if 2.0 ** e * 1.25 < 1 / L else 2.0 ** e
-        kind, tok, proxf, par = prox_token(rs, n, ProjectNonnegative, ProjectBox, ProximalL1, i)
+        kind, tok, proxf, par = prox_token(rs, n, ProjectNonnegative, ProjectBox, ProximalL1, i, fs)
         adaptive = bool(rs.randint(0, 2))
         maxit = int(rs.choice([0, 1, 2, 5, 9, 14]))
-        abstol = float(rs.choice([1e-14, 1e-14, 1e-3, 0.25, 2.0]))
-        meta.append((A, b, x0, t, kind, tok, proxf, par, adaptive, maxit, abstol, sparse))
+        abstol = float(rs.choice([1e-14, 1e-14 * fs, 1e-3 * fs, 0.25 * fs, 2.0 * fs, 1e-3]))
+        meta.append((A, b, x0, t, kind, tok, proxf, par, adaptive, maxit, abstol, sparse, fs))
         lines.append(f"fista mat {qm(A)} {qv(b)} {qv(x0)} {tok} {q(t)} {q(abstol)} {maxit} {int(adaptive)}")
         lines.append(f"fista fun {qm(A)} {qm(A.T)} {qv(b)} {qv(x0)} {tok} {q(t)} {q(abstol)} {maxit} {int(adaptive)}")
     outs = ctx.lean.drive(lines)
-    for idx, (A, b, x0, t, kind, tok, proxf, par, adaptive, maxit, abstol, sparse) in enumerate(meta):
+    for idx, (A, b, x0, t, kind, tok, proxf, par, adaptive, maxit, abstol, sparse, fs) in enumerate(meta):
         m, n = A.shape
         desc = {"solver": "FISTA" if adaptive else "ISTA", "A": A.tolist(), "b": b.tolist(), "x0": x0.tolist(), "stepsize": t,
-                "prox": tok, "maxit": maxit, "abstol": abstol, "sparse": sparse}
+                "prox": tok, "maxit": maxit, "abstol": abstol, "sparse": sparse, "dscale": fs}
         Aop = sp.csr_matrix(A) if sparse else A
         name = "FISTA" if adaptive else "ISTA"
         res = {}
@@ -544,9 +574,16 @@ def check_fista(ctx, rs, sc, FISTA, ProjectNonnegative, ProjectBox, ProximalL1):
             if km != ki:
                 ctx.disagree(key + ":iterations", desc, km, int(ki), "iteration count differs")
                 oracle_fista_step(ctx, key + ":iterations", desc, A, b, x0, t, kind, par, adaptive, maxit, abstol, FISTA, op, proxf)
-            elif not vclose(xi, xm, TOL):
+            elif not vclose(xi / fs, np.asarray(xm) / fs, TOL):
                 ctx.disagree(key + ":iterate", desc, xm, xi.tolist(), "returned point differs")
                 oracle_fista_step(ctx, key + ":iterate", desc, A, b, x0, t, kind, par, adaptive, maxit, abstol, FISTA, op, proxf)
+            # oracle (every case): a return before maxit means |x_new - y| <= abstol, hence (the prox-gradient map being
+            # non-expansive for t <= 1/|A|^2) the returned point is an abstol-approximate fixed point: |x - T(x)| <= abstol
+            if ki < maxit and t * np.linalg.norm(A, 2) ** 2 <= 1.0 and np.all(np.isfinite(xi)):
+                Tx = ref_prox(kind, par, xi - t * (A.T @ (A @ xi - b)), t)
+                if np.linalg.norm(xi - Tx) > abstol * (1 + 1e-6) + 1e-12 * (fs + np.linalg.norm(xi)):
+                    ctx.fail(key + ":abstol-stop", desc, f"|x - prox-step(x)| <= abstol = {abstol}", float(np.linalg.norm(xi - Tx)),
+                             "returned before maxit although the point is not an abstol-approximate fixed point")
         if "mat" in res and "fun" in res and (res["mat"][1] != res["fun"][1] or not np.array_equal(res["mat"][0], res["fun"][0])):
             k2 = f"{name}:forms:{kind}"
             ctx.disagree(k2, desc, "identical", [res["mat"][0].tolist(), res["fun"][0].tolist()], "matrix and function forms differ")
@@ -560,30 +597,32 @@ def check_fista(ctx, rs, sc, FISTA, ProjectNonnegative, ProjectBox, ProximalL1):
         A = gen_matrix(rs, m, n, bool(rs.rand() < 0.3))
         b = rs.randint(-5, 6, size=m).astype(float)
         x0 = start_vector(rs, n)
+        fs = float(rs.choice([1.0, 1.0, 1.0, 2.0 ** -20, 2.0 ** -10, 2.0 ** 10, 2.0 ** 20]))
+        b = b * fs; x0 = x0 * fs
         L = np.linalg.norm(A, 2) ** 2
         t = float(rs.choice([0.5, 0.9, 0.99])) / L
-        kind, tok, proxf, par = prox_token(rs, n, ProjectNonnegative, ProjectBox, ProximalL1, i)
+        kind, tok, proxf, par = prox_token(rs, n, ProjectNonnegative, ProjectBox, ProximalL1, i, fs)
         adaptive = bool(rs.randint(0, 2))
         name = "FISTA" if adaptive else "ISTA"
         desc = {"solver": name, "A": A.tolist(), "b": b.tolist(), "x0": x0.tolist(), "stepsize": t, "prox": tok,
-                "maxit": 20000, "abstol": 1e-11, "mode": "converge"}
+                "maxit": 20000, "abstol": 1e-11 * fs, "mode": "converge", "dscale": fs}
         ctx.case(f"{name.lower()}-converge-{kind}", desc)
         for form in ("mat", "fun"):
             key = f"{name}:{form}:{kind}:fixed-point"
             op = A if form == "mat" else fun_form(A)
             with quiet():
-                xi, ki = FISTA(op, b.copy(), x0.copy(), proxf, maxit=20000, stepsize=t, abstol=1e-11, adaptive=adaptive).solve()
+                xi, ki = FISTA(op, b.copy(), x0.copy(), proxf, maxit=20000, stepsize=t, abstol=1e-11 * fs, adaptive=adaptive).solve()
             xi = np.asarray(xi, dtype=float)
             if ki >= 20000:
                 ctx.note(f"{name} did not reach abstol within 20000 iterations at {desc['A']} (not judged)")
                 continue
             grad = A.T @ (A @ xi - b)
             fp = ref_prox(kind, par, xi - t * grad, t)
-            if np.linalg.norm(xi - fp) > 1e-9:
+            if np.linalg.norm(xi - fp) > 1e-9 * fs:
                 ctx.fail(key, desc, "x = prox_t(x - t A^T(Ax-b))", float(np.linalg.norm(xi - fp)), "returned point is not a fixed point of the proximal-gradient map")
                 continue
             # KKT of min 1/2|Ax-b|^2 + g(x)
-            viol = kkt_violation(kind, par, xi, grad)
+            viol = kkt_violation(kind, unscale_par(par, fs), xi / fs, grad / fs)       # the problem is homogeneous in the scale
             if viol > 1e-6:
                 ctx.fail(key, desc, "KKT residual ~ 0", float(viol), "returned point is not a minimiser of 1/2|Ax-b|^2 + g(x)")
 
@@ -632,7 +671,8 @@ def oracle_fista_step(ctx, key, desc, A, b, x0, t, kind, par, adaptive, maxit, a
         x = xn
     with quiet():
         xi, ki = FISTA(op, b.copy(), x0.copy(), proxf, maxit=maxit, stepsize=t, abstol=abstol, adaptive=adaptive).solve()
-    if ki != k or not vclose(xi, xn, 1e-9):
+    ds = desc.get("dscale", 1.0)
+    if ki != k or not vclose(np.asarray(xi) / ds, xn / ds, 1e-9):
         ctx.fail(key, desc, [xn.tolist(), k], [np.asarray(xi).tolist(), int(ki)],
                  "returned point is not the proximal-gradient iterate defined by the algorithm (reference recomputation)")
 
@@ -647,8 +687,10 @@ def check_lm(ctx, rs, sc, LM):
         linear = (i % 3 == 0)
         Q = np.zeros((m, n)) if linear else (rs.randint(-2, 3, size=(m, n)) * (rs.rand(m, n) < 0.5)) / 8.0
         b = rs.randint(-4, 5, size=m).astype(float)
+        cs = float(rs.choice(LM_SCALES))          # residual multiplied by c = sqrt(precision): the stop is RELATIVE to |g0|
+        M = M * cs; Q = Q * cs; b = b * cs
         x0 = rs.randint(-2, 3, size=n) / 2.0
-        nu0 = float(rs.choice([1e-3, 0.5, 2.0 ** -6]))
+        nu0 = float(rs.choice([1e-3, 0.5, 2.0 ** -6])) * (cs * cs if rs.rand() < 0.7 else 1.0)
         gradtol = float(rs.choice([1e-8, 1e-3, 0.25]))
         maxit = int(rs.randint(0, 9)) if linear else int(rs.randint(0, 5))
         sparse = bool(i % 2)
@@ -656,12 +698,12 @@ def check_lm(ctx, rs, sc, LM):
         jac = (lambda x, M=M, Q=Q: M + 2 * Q * x[None, :])
         g0 = jac(x0).T @ res(x0)
         nuinit = float(np.linalg.norm(g0))
-        meta.append((M, Q, b, x0, nu0, gradtol, maxit, sparse, res, jac, nuinit, linear))
+        meta.append((M, Q, b, x0, nu0, gradtol, maxit, sparse, res, jac, nuinit, linear, cs))
         lines.append(f"lm {qm(M)} {qm(Q)} {qv(b)} {qv(x0)} {q(nuinit)} {q(nu0)} {q(gradtol)} {maxit}")
     outs = ctx.lean.drive(lines)
-    for (M, Q, b, x0, nu0, gradtol, maxit, sparse, res, jac, nuinit, linear), out in zip(meta, outs):
+    for (M, Q, b, x0, nu0, gradtol, maxit, sparse, res, jac, nuinit, linear, cs), out in zip(meta, outs):
         desc = {"solver": "LM", "M": M.tolist(), "Q": Q.tolist(), "b": b.tolist(), "x0": x0.tolist(), "nu0": nu0,
-                "gradtol": gradtol, "maxit": maxit, "sparse": sparse}
+                "gradtol": gradtol, "maxit": maxit, "sparse": sparse, "res_scale": cs, "g0": nuinit}
         kindc = "linear" if linear else "quadratic"
         ctx.case(f"lm-{kindc}", desc)
         key = f"LM:{'sparse' if sparse else 'dense'}:{kindc}"
@@ -692,21 +734,40 @@ def check_lm(ctx, rs, sc, LM):
                     bad = ("iterate", trace[j], xj.tolist()); break
         if bad:
             ctx.disagree(f"{key}:{bad[0]}", desc, bad[1], bad[2], "LM run differs from the model")
+            lm_stop_oracle(ctx, f"{key}:{bad[0]}", desc, res, jac, x0, xi, ii, maxit, gradtol)
             oracle_lm(ctx, f"{key}:{bad[0]}", desc, res, jac, jf, x0, nu0, sparse, LM)
+        # oracle (every case): returned before maxit  =>  RELATIVE gradient test |J^T r| <= gradtol*|g0| holds (lm_stop_sound)
+        lm_stop_oracle(ctx, f"LM:{'sparse' if sparse else 'dense'}:relative-stop", desc, res, jac, x0, xi, ii, maxit, gradtol)
     # ---- oracle: run to convergence -> stationary point of the sum of squares
     for i in range(20 * sc):
         n = int(rs.randint(1, 4)); m = int(rs.randint(n, n + 3))
         M = gen_matrix(rs, m, n, False)
         Q = (rs.randint(-2, 3, size=(m, n)) * (rs.rand(m, n) < 0.5)) / 8.0 if i % 3 else np.zeros((m, n))
         b = rs.randint(-4, 5, size=m).astype(float)
+        cs = float(LM_SCALES[i % len(LM_SCALES)])
+        M = M * cs; Q = Q * cs; b = b * cs
         x0 = rs.randint(-2, 3, size=n) / 2.0
-        sparse = bool(i % 2)
+        sparse = bool((i // len(LM_SCALES)) % 2) if i >= len(LM_SCALES) else bool(i % 2)
         res = (lambda x, M=M, Q=Q, b=b: M @ x + Q @ (x * x) - b)
         jac = (lambda x, M=M, Q=Q: M + 2 * Q * x[None, :])
         jf = (lambda x: sp.csr_matrix(jac(x))) if sparse else jac
-        desc = {"solver": "LM", "M": M.tolist(), "Q": Q.tolist(), "b": b.tolist(), "x0": x0.tolist(), "mode": "converge", "sparse": sparse}
+        desc = {"solver": "LM", "M": M.tolist(), "Q": Q.tolist(), "b": b.tolist(), "x0": x0.tolist(), "mode": "converge", "sparse": sparse,
+                "res_scale": cs, "g0": float(np.linalg.norm(jac(x0).T @ res(x0)))}
         ctx.case("lm-converge", desc)
-        oracle_lm(ctx, f"LM:{'sparse' if sparse else 'dense'}:stationary", desc, res, jac, jf, x0, 1e-3, sparse, LM)
+        oracle_lm(ctx, f"LM:{'sparse' if sparse else 'dense'}:stationary", desc, res, jac, jf, x0, 1e-3 * cs * cs, sparse, LM)
+
+
+def lm_stop_oracle(ctx, key, desc, res, jac, x0, x, i, maxit, gradtol):
+    """on return either all maxit iterations were used or |J(x)^T r(x)| <= gradtol*|J(x0)^T r(x0)| (relative; the only slack is
+    the rounding floor of the product J^T r); a return with iterations left and a larger gradient is premature"""
+    g0 = np.linalg.norm(jac(x0).T @ res(x0))
+    if g0 == 0 or gradtol < 0 or i >= maxit or not np.all(np.isfinite(x)):
+        return
+    J, r = jac(x), res(x)
+    g = np.linalg.norm(J.T @ r)
+    if g > gradtol * g0 * (1 + 1e-6) + 1e-13 * np.linalg.norm(J) * np.linalg.norm(r):
+        ctx.fail(key, {**desc, "returned_after": int(i)}, f"|J^T r| <= gradtol*|g0| = {gradtol * g0} or all {maxit} iterations used", float(g),
+                 "LM returned with iterations left although the relative gradient test |J^T r|/|g0| <= gradtol does not hold")
 
 
 def oracle_lm(ctx, key, desc, res, jac, jf, x0, nu0, sparse, LM):
@@ -724,9 +785,10 @@ def oracle_lm(ctx, key, desc, res, jac, jf, x0, nu0, sparse, LM):
         ctx.note(f"LM did not converge within 2000 iterations at {desc} (not judged)")
         return
     g = np.linalg.norm(jac(x).T @ res(x))
-    if not (g <= 1e-8 * g0 * (1 + 1e-6) + 1e-14):
+    if not (g <= 1e-8 * g0 * (1 + 1e-6) + 1e-13 * np.linalg.norm(jac(x)) * np.linalg.norm(res(x))):
         ctx.fail(key, desc, f"|J^T r| <= gradtol*|g0| = {1e-8 * g0}", float(g), "returned point is not a stationary point of the sum of squares")
-    if not vclose(info["func"], res(x), 1e-10):
+    cs = desc.get("res_scale", 1.0)
+    if not vclose(np.asarray(info["func"]) / cs, res(x) / cs, 1e-10):
         ctx.fail(key, desc, res(x).tolist(), np.asarray(info["func"]).tolist(), "info['func'] is not the residual at the returned point")
 
 
